@@ -14,9 +14,12 @@ package rest
 
 import (
 	"context"
+	"crypto/x509"
+	"encoding/pem"
 	"fmt"
 	"io/ioutil"
 	stdlog "log"
+	"math/big"
 	"net"
 	"regexp"
 	"strings"
@@ -245,4 +248,82 @@ func vC09ConcurrentTenants(t *testing.T, res *vs.Result, reg *vC09Registry, roun
 		res.Distinct(fmt.Sprintf("multitenant|%d tenants|%d requests", nt, len(jobs)))
 	}
 	res.Count("multitenant_rounds", rounds)
+}
+
+// vC09RevokeAfterUse: "currently valid, unrevoked".  A certificate is
+// published, used on one gateway (served), revoked on chain, and presented
+// again on fresh connections to the same gateway - at once and repeatedly.
+// Every presentation after the revocation must be refused, however recently
+// the gateway has seen the certificate accepted.
+func vC09RevokeAfterUse(t *testing.T, res *vs.Result, reg *vC09Registry, rounds int) {
+	pcert := testutil.Certificate(t, reg.Provider, testutil.CertificateOptionDomains([]string{"localhost", "127.0.0.1"}))
+	srv, err := vC09StartServer(t, reg, pcert.Cert)
+	if err != nil {
+		res.Inconclusive("revoke-after-use phase: cannot start the gateway: " + err.Error())
+		return
+	}
+	defer srv.close()
+	var route vC09Route
+	for _, rt := range vC09Routes {
+		if rt.Name == "lease-status" {
+			route = rt
+		}
+	}
+	seed := vs.Seed()
+	for round := 0; round < rounds; round++ {
+		rr := vs.NewRand(seed, uint64(8100000+round))
+		acct := reg.Accts[rr.Intn(len(reg.Accts))]
+		serial := new(big.Int).SetUint64(rr.Uint64()>>2 | 1<<40 | uint64(round))
+		key := vC09Key(rr)
+		der, err := vC09SelfSigned(vC09Spec{CN: acct.Bech, Serial: serial, Window: "current"}, key)
+		if err != nil {
+			continue
+		}
+		pub, err := x509.MarshalPKIXPublicKey(key.Public())
+		if err != nil {
+			continue
+		}
+		pubPEM := pem.EncodeToMemory(&pem.Block{Type: vcerttypes.PemBlkTypeECPublicKey, Bytes: pub})
+		reg.mu.Lock()
+		err = reg.keeper.CreateCertificate(reg.ctx, acct.Addr, vC09CertPEM(der), pubPEM)
+		reg.mu.Unlock()
+		if err != nil {
+			res.Count("revoke_after_use_setup_failed", 1)
+			continue
+		}
+		req := vC09BaseTarget(route, uint64(1+rr.Intn(3)), 1, 1).Req()
+		uses := 1 + rr.Intn(3)
+		servedBefore := 0
+		for u := 0; u < uses; u++ {
+			if o := vC09Do(srv.addr, [][]byte{der}, key, req); o.Status >= 200 && o.Status < 300 {
+				servedBefore++
+			}
+		}
+		reg.mu.Lock()
+		err = reg.keeper.RevokeCertificate(reg.ctx, vcerttypes.CertID{Owner: acct.Addr, Serial: *serial})
+		reg.mu.Unlock()
+		if err != nil {
+			res.Count("revoke_after_use_setup_failed", 1)
+			continue
+		}
+		res.Eval(1)
+		if servedBefore > 0 {
+			res.Count("revoke_after_use_served_before_revocation", 1)
+		}
+		for k := 0; k < 3+rr.Intn(3); k++ {
+			o := vC09Do(srv.addr, [][]byte{der}, key, req)
+			res.Count("revoke_after_use_presentations_after_revocation", 1)
+			if o.Status >= 200 && o.Status < 300 {
+				c := &vC09Case{Seed: seed, Class: "genuine-revoked", Route: route.Name, Hostile: "revoked-after-it-had-been-accepted", Request: req, chain: [][]byte{der}, key: key}
+				_ = c.seal()
+				res.AddViolation(vC09RuleAuth, "C09/"+vC09RuleAuth+"/revoked-after-use",
+					fmt.Sprintf("certificate %s/%s was accepted %d time(s), then revoked on chain; presentation %d after the revocation was still served (%s)", acct.Bech, serial, servedBefore, k+1, o.Outcome), c)
+				break
+			}
+			if rr.Bool() {
+				time.Sleep(time.Duration(rr.Intn(400)) * time.Microsecond)
+			}
+		}
+	}
+	_ = srv.rec.drain()
 }
